@@ -3,6 +3,7 @@
 -/
 import GraphrsModel.ObsClu
 import GraphrsModel.Model.Community
+import GraphrsModel.Model.LouvainFull
 namespace Graphrs
 
 def P.rat : P Rat := do
@@ -43,10 +44,26 @@ def handleLouv : P String := do
   let weighted ← P.bool
   let res ← P.rat
   let _seed ← P.nat
+  let perms ← P.listOf (P.listOf P.nat)
   let rest ← get
-  let (_, a) := buildBoth sp nodes edges
+  let (so, a) := buildBoth sp nodes edges
+  -- the step-level model (exact arithmetic; default threshold 1e-7)
+  let modelParts : String := match so with
+    | .ok s =>
+      (match LouvainFull.louvainPartitions s weighted res ((1 : Rat) / 10000000) perms with
+       | .ok (some levels) =>
+         let sorted := sortNat s.getAllNodeNames
+         let toNames (l : List Nat) : List Nat := l.filterMap fun r => sorted[r]?
+         if levels.isEmpty then "." else
+         joinWith " " (levels.map fun lev =>
+           joinWith ";" ((sortNatLists (lev.map fun c => sortNat (toNames c))).map fun c => if c.isEmpty then "_" else pNats c))
+       | .ok none => "nomodel"
+       | .err k => s!"E{k.code}"
+       | .panic site => "P:" ++ site)
+    | .err k => s!"E{k.code}"
+    | .panic _ => "P"
   match rest with
-  | [] => pure "m.build=0"
+  | [] => pure s!"m.build=0|m.parts={modelParts}"
   | _ => do
     let _ ← P.next
     let code ← P.next
@@ -83,7 +100,7 @@ def handleLouv : P String := do
       else match levels.getLast? with
         | some l => if sortNatLists (l.map sortNat) == sortNatLists (comm.map sortNat) then "1" else "communities-is-not-the-last-level"
         | none => "1"
-    pure (pFields "m." [("build", "0")] ++ "|" ++
+    pure (pFields "m." [("build", "0"), ("parts", modelParts)] ++ "|" ++
           pFields "s." [("ok.levels", okLevels), ("ok.nested", okNested), ("ok.monotone", okMono), ("ok.last", okLast)])
 
 end Graphrs
